@@ -283,6 +283,53 @@ class Converter(NxHarness):
             S.prove(f"gate-list-maps-generator-into-group-of-G2-with-sign[{i}]", O.member_by_enumeration(w, gens2))
 
 
+class LcCheckTableau(NxHarness):
+    """lc_check / state_converter_circuit with a TABLEAU as second state (the property covers graphs, adjacency
+    matrices and tableaux): state1 = symbolic graph, state2 = arbitrary valid stabilizer tableau.  Whenever the
+    answer is yes, the returned gate list maps |G1> exactly (signs included) onto state2."""
+
+    weight = 90
+
+    def input_space(self):
+        return self.n * (self.n - 1) // 2 + 2 * self.n * self.n + self.n
+
+    def declare(self, S):
+        from vf.common import declare_stabilizer, assume_valid_stabilizer
+        spec = {"g1": declare_graph(S, self.n, tag="A"), "t2": declare_stabilizer(S, self.n, tag="T")}
+        assume_valid_stabilizer(S, spec["t2"])
+        return spec
+
+    def body(self, S, spec):
+        import graphiq.backends.stabilizer.functions.local_cliff_equi_check as lce
+        from vf.common import fresh_stabilizer, stab_rows
+        import networkx as nx
+        n = self.n
+        a1 = cells(spec["g1"]["adj"])
+        if S.symbolic:
+            from symnp.stubs import SymGraph
+            g1 = SymGraph(spec["g1"]["adj"].copy()).to_real()
+        else:
+            g1 = nx.from_numpy_array(np.asarray(spec["g1"]["adj"]))
+        t2 = fresh_stabilizer(spec["t2"])
+        if self.order == "graph-first":
+            ok, gates = lce.lc_check(g1, t2, validate=False)
+            src, dst = graph_rows(a1, n), stab_rows(spec["t2"])
+        else:
+            ok, gates = lce.lc_check(t2, g1, validate=False)
+            src, dst = stab_rows(spec["t2"]), graph_rows(a1, n)
+        if not ok:
+            S.info["answered_no"] = 1
+            S.prove("answered-no", True)
+            return
+        S.info["answered_yes"] = 1
+        for i, r in enumerate(src):
+            w = r
+            for g in gates:
+                if g[0] != "I":
+                    w = O.apply1(w, g[0], g[1])
+            S.prove(f"gate-list-maps-generator-into-target-group-with-sign[{i}]", O.member_by_enumeration(w, dst))
+
+
 def plan(tier):
     q = tier == "quick"
     jobs = []
@@ -298,6 +345,12 @@ def plan(tier):
         jobs.append((Converter(n=n, api="converter_gate_list"), {}))
         jobs.append((Converter(n=n, api="lc_check"), {}))
         jobs.append((Converter(n=n, api="state_converter_circuit"), {}))
+    for order in ("graph-first", "tableau-first"):
+        jobs.append((LcCheckTableau(n=2, order=order), {}))
+        h = LcCheckTableau(n=3, order=order)
+        h.parallel = True
+        h.partial_ok = q
+        jobs.append((h, {"time_budget": 45 if q else 3600, "chunk_paths": 8, "chunk_s": 8.0}))
     if not q:
         for h in (IsLcEquivalent(n=4, mode="deterministic", with_lc_ops=True), Converter(n=4, api="lc_check")):
             h.parallel = True
